@@ -108,7 +108,9 @@ func Storable(m map[string]string) bool {
 	return true
 }
 
-var Vecs = [][]float32{{1, 1}, {2, 1}, {3, 3}, {1}} // index 3 has the wrong dimension (only used by dataset-level checks)
+// index 3 has the wrong dimension (only used by dataset-level checks); index 4 differs from index 0 by a few units in the
+// last place of one component (an update by a tiny step is still an update)
+var Vecs = [][]float32{{1, 1}, {2, 1}, {3, 3}, {1}, {1.0000005, 1}}
 
 // LevelOf fixes the level an id is proposed with (drawn by the proposer, part of the entry).
 func LevelOf(id int) int32 { return int32([]int{0, 1, 0, 2}[id%4]) }
@@ -383,6 +385,8 @@ func Alphabet(thorough bool) []Op {
 		}
 		out = append(out, Op{"rem", []ItemSpec{{id, 0, 0}}})
 	}
+	// a vector a hair's breadth from another one, with metadata that changes nothing
+	out = append(out, Op{"upd", []ItemSpec{{0, 4, 0}}}, Op{"upd", []ItemSpec{{1, 4, 1}}}, Op{"ins", []ItemSpec{{2, 4, 0}}})
 	out = append(out,
 		Op{"bins", []ItemSpec{{0, 0, 1}, {1, 1, 0}}},
 		Op{"bins", []ItemSpec{{2, 2, 2}, {2, 0, 0}}}, // duplicate inside the batch
